@@ -725,7 +725,7 @@ func c14DoTable(c *Ctx, r *RuleResult, run func(DTXSpec, int), codeDomain func(s
 				if env.Eq(S("bodytext"), K("")) {
 					kind = "none"
 				} else {
-					return []string{fmt.Sprintf("HTTPError(%d,new:fmt(\"%%v\"|bodytext),closed=true)", code), fmt.Sprintf("HTTPError(%d,new:fmt(\"%%v\"|(bodytext+\" […]\")),closed=true)", code)}, true
+					return []string{fmt.Sprintf("HTTPError(%d,new:bodytext,closed=true)", code), fmt.Sprintf("HTTPError(%d,new:(bodytext+\" […]\"),closed=true)", code)}, true
 				}
 			}
 			return []string{fmt.Sprintf("HTTPError(%d,%s,closed=true)", code, kind)}, true
@@ -887,7 +887,7 @@ func c14SyncTable(c *Ctx, r *RuleResult, run func(DTXSpec, int)) {
 					return []string{"error"}, true
 				default:
 					// the collection itself is skipped
-					if env.Eq(S(href), S("path")) || env.Eq(S("path"), S("fmt(\"%s/\"|"+href+")")) {
+					if env.Eq(S(href), S("path")) || env.Eq(S("path"), S("("+href+"+\"/\")")) {
 						continue
 					}
 					upd = append(upd, href)
